@@ -1,4 +1,5 @@
 import Haiway.Proofs.Groups
+import Haiway.Proofs.GroupsDepth
 /-!
 # C06 – structured concurrency: spawned tasks never outlive their scope
 
@@ -260,10 +261,8 @@ def exit_progress_statement : Prop :=
 
 /-- **C06.exit_progress_partial** (one level of waiting): while a task waits in a group exit, either the exit itself
 can move (reap a finished member, deliver the pending cancellation, leave), or a member is still live – and a live
-member outside a group exit of its own can move unless it waits on an unreleased gate (`member_progress`).  Missing for
-the full statement: a member that itself waits in a nested exit needs the argument applied again to *its* members;
-that this descent ends (the waits-for relation is acyclic, members being created after their group's owner) is not
-formalised. -/
+member outside a group exit of its own can move unless it waits on an unreleased gate (`member_progress`).  (The first step of
+`exit_progress`, kept under its old name; the descent through members that themselves wait in a nested exit is done there.) -/
 theorem exit_progress_partial (s : Sys) (hr : Reach s) (t b : Nat) (susp : Bool) (hst : (s.tasks t).status = .exitWait b susp) :
     (∃ l, (silent l = true ∨ l = .left t b (exitResult (s.groups b))) ∧ (step s l).isSome = true) ∨
     ∃ c ∈ (s.groups b).members, isLive (s.tasks c) = true := by
@@ -332,6 +331,102 @@ theorem member_progress (s : Sys) (c : Nat) (hl : isLive (s.tasks c) = true)
         have : f = ⟨f.block, true⟩ := by cases f; simp_all
         simp [step, hf, bodyOutcome, hst, ← this]
       | false => exact ⟨.left c f.block o, by simp [step, hf, hfa, bodyOutcome, hst], by simp, by simp, by simp, by simp⟩
+
+/-- a live member outside a group exit of its own can make a *loop* step of its own, unless it waits on an unreleased gate -/
+theorem member_loop_progress (s : Sys) (c : Nat) (hl : isLive (s.tasks c) = true)
+    (hne : ∀ b susp, (s.tasks c).status ≠ .exitWait b susp) :
+    (∃ l, loopStep l = true ∧ (step s l).isSome = true) ∨
+      ∃ g, (s.tasks c).status = .awaiting g ∧ s.released g = false ∧ (s.tasks c).mustCancel = false := by
+  cases hst : (s.tasks c).status with
+  | absent => simp [isLive, hst] at hl
+  | done o => simp [isLive, hst] at hl
+  | exitWait b susp => exact absurd hst (hne b susp)
+  | fresh =>
+    left
+    cases hm : (s.tasks c).mustCancel with
+    | false => exact ⟨.start c, rfl, by simp [step, hst, hm]⟩
+    | true => exact ⟨.silentEnd c, rfl, by simp [step, hst, hm]⟩
+  | awaiting g =>
+    cases hm : (s.tasks c).mustCancel with
+    | true => left; exact ⟨.resume c g true, rfl, by simp [step, hst, hm]⟩
+    | false =>
+      cases hrel : s.released g with
+      | true => left; exact ⟨.resume c g false, rfl, by simp [step, hst, hm, hrel]⟩
+      | false => right; exact ⟨g, rfl, hrel, rfl⟩
+  | body =>
+    left
+    cases hf : (s.tasks c).frames with
+    | nil => exact ⟨.end_ c .ok, rfl, by simp [step, hf, bodyOutcome, hst]⟩
+    | cons f rest =>
+      cases hfa : f.isAsync with
+      | true =>
+        refine ⟨.bodyEnd c f.block .ok, rfl, ?_⟩
+        have : f = ⟨f.block, true⟩ := by cases f; simp_all
+        simp [step, hf, bodyOutcome, hst, ← this]
+      | false => exact ⟨.left c f.block .ok, rfl, by simp [step, hf, hfa, bodyOutcome, hst]⟩
+  | unwinding o =>
+    left
+    cases hf : (s.tasks c).frames with
+    | nil => exact ⟨.end_ c o, rfl, by simp [step, hf, bodyOutcome, hst]⟩
+    | cons f rest =>
+      cases hfa : f.isAsync with
+      | true =>
+        refine ⟨.bodyEnd c f.block o, rfl, ?_⟩
+        have : f = ⟨f.block, true⟩ := by cases f; simp_all
+        simp [step, hf, bodyOutcome, hst, ← this]
+      | false => exact ⟨.left c f.block o, rfl, by simp [step, hf, hfa, bodyOutcome, hst]⟩
+
+/-- **C06.exit_progress** (the full statement, every depth of nested waiting): in every reachable state in which a task
+waits in the exit of an async scope, the event loop can take a step on its own – reap a finished member, deliver a pending
+cancellation, let a task start / resume / end its body / leave a block – unless some task waits on a gate that nobody has
+released and has not been asked to cancel.  The descent from a waiting owner to a member that waits in a nested exit of its
+own ends because every member is strictly deeper (in spawns from the root) than the owner of its group, and depths are
+bounded in any reachable state (`Haiway.Groups.Dp`). -/
+theorem exit_progress : exit_progress_statement := by
+  intro s hr
+  have hw := hr.wf
+  have hd := hr.dp
+  obtain ⟨B, hB⟩ := hd.bound
+  -- strong induction on how far below the bound the waiting task is
+  have main : ∀ n t b susp, B - (s.tasks t).depth ≤ n → (s.tasks t).status = .exitWait b susp →
+      (∃ l, loopStep l = true ∧ (step s l).isSome = true) ∨
+      ∃ c g, (s.tasks c).status = .awaiting g ∧ s.released g = false ∧ (s.tasks c).mustCancel = false := by
+    intro n
+    induction n with
+    | zero =>
+      intro t b susp hn hst
+      rcases exit_progress_partial s hr t b susp hst with ⟨l, hl, hen⟩ | ⟨c, hc, hlive⟩
+      · left
+        rcases hl with hl | hl
+        · exact ⟨l, by cases l <;> simp_all [silent, loopStep], hen⟩
+        · subst hl; exact ⟨_, rfl, hen⟩
+      · -- a member would have to be deeper than the bound
+        obtain ⟨rest, hfr⟩ := hw.wait_top t b susp hst
+        have hown : (s.groups b).owner = t := (hw.frames_owner t b (by rw [hfr]; simp [asyncGroups])).1
+        have hdeep := member_deeper hw hd b c hc
+        rw [hown] at hdeep
+        have := hB c
+        omega
+    | succ n ih =>
+      intro t b susp hn hst
+      rcases exit_progress_partial s hr t b susp hst with ⟨l, hl, hen⟩ | ⟨c, hc, hlive⟩
+      · left
+        rcases hl with hl | hl
+        · exact ⟨l, by cases l <;> simp_all [silent, loopStep], hen⟩
+        · subst hl; exact ⟨_, rfl, hen⟩
+      · obtain ⟨rest, hfr⟩ := hw.wait_top t b susp hst
+        have hown : (s.groups b).owner = t := (hw.frames_owner t b (by rw [hfr]; simp [asyncGroups])).1
+        have hdeep := member_deeper hw hd b c hc
+        rw [hown] at hdeep
+        by_cases hcw : ∃ b' susp', (s.tasks c).status = .exitWait b' susp'
+        · obtain ⟨b', susp', hcst⟩ := hcw
+          exact ih c b' susp' (by have := hB c; omega) hcst
+        · have hne : ∀ b' susp', (s.tasks c).status ≠ .exitWait b' susp' := fun b' susp' h => hcw ⟨b', susp', h⟩
+          rcases member_loop_progress s c hlive hne with h | ⟨g, hg⟩
+          · left; exact h
+          · right; exact ⟨c, g, hg⟩
+  intro t b susp hst
+  exact main (B - (s.tasks t).depth) t b susp (Nat.le_refl _) hst
 
 /-- what reaping a finished member changes: it leaves its group's list; no task changes its control state -/
 theorem reap_effect (s s1 : Sys) (c b : Nat) (hm : (s.tasks c).member = some b) (hs : step s (.reap c) = some s1) :
